@@ -30,7 +30,8 @@ EXPLANATION = (
     "must resolve), branch coverage of the documented get_sampler distribution names, and def-use agreement between the keys "
     "produced by each env's default generator (_generate value graph, all return paths) and the keys its _reset reads from the "
     "incoming TensorDict. Decides that every configuration path can build an instance with the keys reset needs. Value ranges "
-    "(bounds, ordered windows, triangle inequality, eligibility) and solvability are statements about sampled values: NOT decided."
+    "(bounds, ordered windows, triangle inequality, eligibility) are decided only where a structural argument exists (bound lineage for the CVRPTW windows and the FJSP processing times, "
+    "loop exhaustiveness for the ATSP closure, units for MTVRP); solvability in general is a statement about sampled values: NOT decided."
 )
 RULE = "one obligation per (generator class, attribute read) group, per documented distribution, per env key set"
 UT = "rl4co/envs/common/utils.py"
